@@ -459,7 +459,8 @@ impl FactorizedExpandChain {
                             None => self.store.edge_type(*edge_id),
                         };
                         if let Some(et) = seen_type {
-                            et.as_str() == filter_type.as_str()
+                            // same rule as the first hop (get_neighbors) and the flat ExpandOperator
+                            et.as_str().eq_ignore_ascii_case(filter_type.as_str())
                         } else {
                             false
                         }
